@@ -10,12 +10,14 @@ package main
 import (
 	"context"
 	"errors"
+	"flag"
 	"fmt"
 	"io"
 	"strings"
 	"time"
 
 	"google.golang.org/grpc"
+	"google.golang.org/grpc/connectivity"
 	"google.golang.org/grpc/credentials/insecure"
 	"google.golang.org/grpc/metadata"
 
@@ -63,11 +65,20 @@ type cfgData struct {
 	// (package connection instrumented too) over a scripted dial function,
 	// instead of the harness's stand-in for it
 	realConn bool
+	// sharedAddr: every target is reached through the one address "shared"
+	// (two devices behind one proxy): with realConn they share ONE pooled
+	// connection; the dial always succeeds
+	sharedAddr bool
 }
 
 type harness struct{}
 
-func (harness) Property() string { return "C13" }
+// -prop C16 selects the configurations in which two managed targets share one
+// next hop through the repository's own connection.Manager: the manager is a
+// HOLDER of pooled connections, and a holder never closes what others hold.
+var prop = flag.String("prop", "C13", "property")
+
+func (harness) Property() string { return *prop }
 
 var sessAlpha = []session{
 	{refuse: true}, {msgs: "", end: "err"}, {msgs: "u", end: "err"}, {msgs: "us", end: "eof"}, {msgs: "u", end: "silence"}, {msgs: "nu", end: "err"}, {msgs: "", end: "silence"},
@@ -82,7 +93,32 @@ func scriptName(s []session) string {
 }
 
 func (harness) Configs(tier string) []xplore.Config {
+	if *prop == "C16" {
+		return xplore.WithReverse(configsShared(tier))
+	}
 	return xplore.WithReverse(configsBase(tier))
+}
+
+// configsShared: two targets behind one next hop, dialled through the
+// repository's own connection.Manager; one of them goes silent (its receive
+// time-out ends its session), errors out, or is removed, while the other's
+// stream stays open on the shared connection.
+func configsShared(tier string) []xplore.Config {
+	bound := 2
+	if tier == "thorough" {
+		bound = 3
+	}
+	var out []xplore.Config
+	quiet := []session{{msgs: "u", end: "silence"}}
+	for _, s1 := range [][]session{{{msgs: "u", end: "silence"}}, {{msgs: "u", end: "err"}}, {{msgs: "us", end: "eof"}, {msgs: "", end: "silence"}}} {
+		for _, c := range [][]ctl{nil, {{"remove", 1}}, {{"reconnect", 1}}} {
+			for _, rt := range []bool{true, false} {
+				out = append(out, xplore.Config{Name: fmt.Sprintf("t1=%s t2=%s share one next hop ctl=%v recvTimeout=%v realConnectionManager=true", scriptName(s1), scriptName(quiet), c, rt), Bound: bound,
+					Data: cfgData{scripts: map[string][]session{"t1": s1, "t2": quiet}, targets: []string{"t1", "t2"}, ctls: c, recvTimeout: rt, rounds: 4, realConn: true, sharedAddr: true}})
+			}
+		}
+	}
+	return out
 }
 
 func configsBase(tier string) []xplore.Config {
@@ -176,6 +212,7 @@ type env struct {
 	dialAt  []time.Duration // virtual time of every connection attempt (long-outage configurations)
 	dialing map[string]int  // dials in flight per target
 	made    []*grpc.ClientConn
+	connOf  map[string]*grpc.ClientConn // the connection the target's open stream was given
 }
 
 func (e *env) add(t, kind string, stream int, arg string) {
@@ -228,6 +265,9 @@ func (e *env) dial(ctx context.Context, t string, _ ...grpc.DialOption) (*grpc.C
 	}
 	idx := e.nstream[t]
 	sess := e.sessionAt(t, idx)
+	if t == "shared" {
+		sess = session{} // the shared next hop always answers; scripts are per target stream
+	}
 	if sess.pending {
 		vrt.Recv(ctx.Done())
 		e.nstream[t]++
@@ -312,7 +352,7 @@ func (harness) Run(cfg xplore.Config, ch vrt.Chooser, trace bool) (xplore.Outcom
 	}
 	defer func() { manager.RetryRandomization = rnd }()
 	res := vrt.Run(ch, vrt.Options{Reverse: cfg.Reverse, Trace: trace, EarlyTimers: !d.long}, func() {
-		e := &env{d: d, nstream: map[string]int{}, dialing: map[string]int{}}
+		e := &env{d: d, nstream: map[string]int{}, dialing: map[string]int{}, connOf: map[string]*grpc.ClientConn{}}
 		defer func() {
 			for _, cc := range e.made {
 				cc.Close()
@@ -326,6 +366,7 @@ func (harness) Run(cfg xplore.Config, ch vrt.Chooser, trace bool) (xplore.Outcom
 			id := e.nstream[t]
 			e.nstream[t]++
 			e.add(t, "open", id, "")
+			e.connOf[t] = conn
 			return &fakeStream{e: e, t: t, id: id, sess: e.sessionAt(t, id), ctx: ctx}, nil
 		})
 		c := manager.Config{
@@ -356,7 +397,11 @@ func (harness) Run(cfg xplore.Config, ch vrt.Chooser, trace bool) (xplore.Outcom
 		raceAdded := false
 		for _, t := range d.targets {
 			e.add(t, "added", -1, "") // logged first: the monitor goroutine may start before Add returns
-			if err := m.Add(t, &tpb.Target{Addresses: []string{t}}, sr); err != nil {
+			addr := t
+			if d.sharedAddr {
+				addr = "shared"
+			}
+			if err := m.Add(t, &tpb.Target{Addresses: []string{addr}}, sr); err != nil {
 				viol("add-refused", "Add(%s): %v", t, err)
 			}
 			managed[t] = true
@@ -371,6 +416,16 @@ func (harness) Run(cfg xplore.Config, ch vrt.Chooser, trace bool) (xplore.Outcom
 			// a healthy successor for no reason)
 			if n := vrt.ArmedTimers(); n > len(d.targets) && !hasRace(d.ctls) {
 				viol("timers-left-armed", "round %d: %d timers are armed for %d managed target(s): a timer of a stream that already ended is still running; trace: %s", round, n, len(d.targets), e.render(d.targets[0]))
+			}
+			// a pooled connection is never closed while a holder has not released
+			// it: a target whose stream is open (manager parked in Recv) holds the
+			// connection that stream was opened on
+			if d.realConn {
+				for _, t := range d.targets {
+					if cc := e.connOf[t]; managed[t] && e.inSession(t) && cc != nil && cc.GetState() == connectivity.Shutdown {
+						viol("closed-while-held", "round %d: target %s has an open stream on a pooled connection that is already closed (somebody closed a connection other holders had not released); trace: %s", round, t, e.render(t))
+					}
+				}
 			}
 			if vrt.ArmedTimers() == 0 {
 				for _, t := range d.targets {
